@@ -94,6 +94,8 @@ class Gen:
                     pass
             for _ in range(rng.randint(1, 3)):
                 self.add_effect(a, scope)
+            if self.p(F.get("crafted_pairs", 0.3)):
+                self.add_crafted_pair(a, scope)
             if a.effects:
                 pr.add_action(a)
         if not pr.actions:
@@ -201,6 +203,33 @@ class Gen:
             q = Exists if self.p(0.5) else Forall
             return q(self.bexp(scope + [v], depth - 1, False), v)
         return self.batom(scope)
+
+    def add_crafted_pair(self, a, scope):
+        """two effects that may hit the same ground fluent only in some states / for some parameter values:
+        conditional assignment + conditional increase, or targets that alias when two parameters coincide"""
+        rng = self.rng
+        fl = self.fl
+        try:
+            tparams = [s for s in scope if s.type.is_user_type() and s.type == self.T]
+            if "m" in fl and len(tparams) >= 2 and self.p(0.5):
+                m = fl["m"]
+                first, second = rng.sample(["assign", "inc", "assign2"], 2)
+                for kind, par in ((first, tparams[0]), (second, tparams[1])):
+                    if kind == "inc":
+                        a.add_increase_effect(m(par), 1)
+                    else:
+                        a.add_effect(m(par), Int(0 if kind == "assign" else 1))
+            elif "n" in fl:
+                n = fl["n"]
+                c1, c2 = self.bexp(scope, 1, allow_quant=False), self.bexp(scope, 1, allow_quant=False)
+                if self.p(0.5):
+                    a.add_effect(n(), Int(rng.randint(0, 2)), c1)
+                    a.add_increase_effect(n(), 1, c2)
+                else:
+                    a.add_increase_effect(n(), 1, c2)
+                    a.add_effect(n(), Int(rng.randint(0, 2)), c1)
+        except Exception:  # noqa
+            pass
 
     def add_effect(self, a, scope):
         rng = self.rng
